@@ -20,6 +20,7 @@ func TestMain(m *testing.M) {
 		earlyToGo[a] = int(dblib.ASEIsolationLevel(a).ToGo())
 		earlyString[a] = dblib.ASEIsolationLevel(a).String()
 	}
+	vh.Rule("also: 2..8 goroutines translating at the same time, every answer compared with the answer of the same call alone (separate race-detector run)")
 	vh.Main(m, "C20")
 }
 
@@ -338,4 +339,71 @@ func TestEveryLevelValue(t *testing.T) {
 	}
 	vh.Sample("level-value", valueCase{ASE: 257})
 	e.Done("ASE level values -70000..70000, 2^k+d for k in 16,24,31,32,40,62 and d in -5..5, MinInt, MaxInt")
+}
+
+// ---- several goroutines translating at the same time (every connection of a pool does):
+// each answer must be the one the same call gives alone
+
+func TestConcurrentCallers(t *testing.T) {
+	gen := func(rt *rapid.T) []histCase {
+		n := rapid.IntRange(2, 8).Draw(rt, "goroutines")
+		var cs []histCase
+		for g := 0; g < n; g++ {
+			m := rapid.IntRange(5, 60).Draw(rt, "n")
+			ops := make([]histOp, m)
+			for i := range ops {
+				k := rapid.IntRange(0, 2).Draw(rt, "kind")
+				l := rapid.IntRange(-8, 64).Draw(rt, "level")
+				if k != 0 {
+					l = rapid.SampledFrom([]int{-4, -1, 0, 1, 2, 3, 4, 5, 8, 257, 65537}).Draw(rt, "ase")
+				}
+				ops[i] = histOp{Kind: k, Level: l}
+			}
+			cs = append(cs, histCase{Ops: ops})
+		}
+		return cs
+	}
+	// what each call answers when nothing else runs
+	alone := func(op histOp) string {
+		switch op.Kind {
+		case 0:
+			a, err := dblib.ASEIsolationLevelFromGo(sql.IsolationLevel(op.Level))
+			return fmt.Sprint(int(a), err != nil)
+		case 1:
+			return fmt.Sprint(int(dblib.ASEIsolationLevel(op.Level).ToGo()))
+		}
+		return dblib.ASEIsolationLevel(op.Level).String()
+	}
+	run := func(cs []histCase) *vh.Failure {
+		want := make([][]string, len(cs))
+		for i, c := range cs {
+			for _, op := range c.Ops {
+				want[i] = append(want[i], alone(op))
+			}
+		}
+		type indexed struct {
+			i int
+			c histCase
+		}
+		var batch []indexed
+		for i, c := range cs {
+			batch = append(batch, indexed{i, c})
+		}
+		f := vh.Together(batch, func(x indexed) *vh.Failure {
+			for rep := 0; rep < 50; rep++ {
+				for j, op := range x.c.Ops {
+					if got := alone(op); got != want[x.i][j] {
+						return vh.Failf("C20/answer-differs-under-concurrency", "op %+v answers %q alone and %q while other goroutines translate", op, want[x.i][j], got)
+					}
+				}
+			}
+			return nil
+		})
+		if f == nil {
+			vh.Label("concurrent-callers")
+			vh.NonTrivial(fmt.Sprint(cs))
+		}
+		return f
+	}
+	vh.Check(t, "TestConcurrentCallers", vh.N(300, 6000), gen, run)
 }
